@@ -647,6 +647,71 @@ theorem C02_roundtrip_default (cfg : Cfg) (ctx : Ctx) (h : RoundTrip cfg ctx) (h
     simp only [hadd] at this
     exact this
 
+/-- **round trip with `info_via = "both"`**: the handler's information overrides the
+name-derived one field-wise, exactly as `FileInfo.update` does — a reported start replaces the
+parsed start, a reported end replaces the parsed end (else the parsed end, else
+`start + time_coverage`, else the start), its attributes are written over the parsed ones and
+the remaining user placeholders keep their fill values.  `en` is the name-derived end as given
+by `C02_end_full` / `C02_end_partial_recovered*` / `C02_end_default`. -/
+theorem C02_roundtrip_both (cfg : Cfg) (ctx : Ctx) (h : RoundTrip cfg ctx) (tc : Option Int)
+    (hd : Info) (en : Option DateTime)
+    (hcov : coverageOf cfg.path (stdOf (Ps cfg) ctx.s) (stdOf (Pe cfg) ctx.e) =
+      .ok (some ctx.s, en)) :
+    ∃ name attrs, format cfg cfg.path ctx = .ok name ∧
+      getInfo cfg .both tc hd name =
+        (match (match hd.stop with | some t => some t | none => en) with
+          | some e' => .ok (hd.start.getD ctx.s, e', attrs)
+          | none =>
+            match tc with
+            | some δ =>
+              match addDelta (hd.start.getD ctx.s) δ with
+              | .ok e' => .ok (hd.start.getD ctx.s, e', attrs)
+              | .error err => .error err
+            | none => .ok (hd.start.getD ctx.s, hd.start.getD ctx.s, attrs)) ∧
+      (∀ n v, (∃ kv ∈ hd.attrs, kv.1 = n) → (∀ kv ∈ hd.attrs, kv.1 = n → kv.2 = v) →
+        attrs.lookup n = some v) ∧
+      (∀ n v, (∀ kv ∈ hd.attrs, kv.1 ≠ n) → Tok.ph (.user n) ∈ cfg.path →
+        ctx.fill.lookup n = some v → attrs.lookup n = some v) := by
+  obtain ⟨name, h1, h2, hr⟩ :=
+    C02_args_recovered cfg ctx h.unambig h.goodS h.goodE h.stdS h.stdE h.date
+  obtain ⟨k, hk⟩ := hasDate_ph cfg h.date
+  have hsf := singleFile_false_of_ph _ k hk
+  refine ⟨name, attrUpdate (attrUpdate [] (userCaps (capsOf ctx cfg.path []))) hd.attrs, h1, ?_, ?_, ?_⟩
+  · unfold getInfo
+    simp only [hsf, h2, hr.trans hcov, Info.update]
+    obtain ⟨hstart, hstop, hattrs⟩ := hd
+    cases hstart <;> cases hstop <;> cases en <;> cases tc <;> first | rfl | simp
+  · intro n v hex hval
+    exact lookup_attrUpdate hd.attrs n v hval _ (Or.inr hex)
+  · intro n v habs hmem hfill
+    exact lookup_attrUpdate hd.attrs n v (fun kv hkv hk => absurd hk (habs kv hkv)) _
+      (Or.inl (attrs_lookup cfg ctx h.unambig [] n v hmem hfill))
+
+/-- the same for a template whose end is spelled out as completely as the start: the reported
+coverage is `(handler start or s, handler end or e)` -/
+theorem C02_roundtrip_both_full (cfg : Cfg) (ctx : Ctx) (h : RoundTrip cfg ctx) (tc : Option Int)
+    (hd : Info) (hdE : HasDate (Pe cfg))
+    (h1 : Ps cfg .hour = true → Pe cfg .hour = true)
+    (h2 : Ps cfg .minute = true → Pe cfg .minute = true)
+    (h3 : Ps cfg .second = true → Pe cfg .second = true)
+    (h4 : Ps cfg .millisecond = true → Pe cfg .millisecond = true)
+    (hresE : truncTo (Pe cfg) ctx.e = ctx.e) (hle : lt ctx.e ctx.s = false) :
+    ∃ name attrs, format cfg cfg.path ctx = .ok name ∧
+      getInfo cfg .both tc hd name = .ok (hd.start.getD ctx.s, hd.stop.getD ctx.e, attrs) ∧
+      (∀ n v, (∃ kv ∈ hd.attrs, kv.1 = n) → (∀ kv ∈ hd.attrs, kv.1 = n → kv.2 = v) →
+        attrs.lookup n = some v) ∧
+      (∀ n v, (∀ kv ∈ hd.attrs, kv.1 ≠ n) → Tok.ph (.user n) ∈ cfg.path →
+        ctx.fill.lookup n = some v → attrs.lookup n = some v) := by
+  have hcov : coverageOf cfg.path (stdOf (Ps cfg) ctx.s) (stdOf (Pe cfg) ctx.e) =
+      .ok (some ctx.s, some ctx.e) := by
+    have := C02_end_full cfg.path (Ps cfg) (Pe cfg) ctx.s ctx.e h.goodS.1 h.goodE.1 h.date hdE
+      h1 h2 h3 h4 (by rw [hresE, h.atRes]; exact hle)
+    rw [this, hresE, h.atRes]
+  obtain ⟨name, attrs, hf, hg, ha1, ha2⟩ := C02_roundtrip_both cfg ctx h tc hd (some ctx.e) hcov
+  refine ⟨name, attrs, hf, ?_, ha1, ha2⟩
+  rw [hg]
+  cases hd.stop <;> rfl
+
 /-! ### Non-vacuity and executable sanity tests (tests, not theorems) -/
 
 section Examples
@@ -801,6 +866,17 @@ example := C02_roundtrip_default exCfg6 exCtx6 exRoundTrip6 {} (by intro f; case
 #guard getInfo exCfg6 .filename none {} "/042_20180228_noaa18-a.b.nc".toList
         = .ok (exCtx6.s, exCtx6.s, [("orbit", "042".toList), ("sat", "noaa18".toList), ("name", "a.b".toList)])
 
+-- joint hypotheses of C02_roundtrip_both_full; handler overrides the end and adds an attribute
+example :=
+  C02_roundtrip_both_full exCfg3 exCtx3 exRoundTrip3 none
+    { start := none, stop := some { y := 2017, mo := 1, d := 2 }, attrs := [("orbit", "7".toList)] }
+    (by unfold HasDate; decide) (by decide) (by decide) (by decide) (by decide) (by decide)
+    (by decide +kernel)
+#guard getInfo exCfg3 .both none
+        { start := none, stop := some { y := 2017, mo := 1, d := 2 }, attrs := [("orbit", "7".toList)] }
+        "/20161231_23-17001T0015.nc".toList
+      = .ok (exCtx3.s, { y := 2017, mo := 1, d := 2 }, [("orbit", "7".toList)])
+
 end Examples
 
 assert_axioms C02_parse_pad C02_ofYearDoy_doyOf C02_toMicros_strictMono C02_lt_iff_lex
@@ -812,4 +888,4 @@ assert_axioms C02_parse_pad C02_ofYearDoy_doyOf C02_toMicros_strictMono C02_lt_i
   C02_end_partial_recovered_hour C02_end_partial_recovered_minute C02_roundtrip_subhour
   C02_rejected_of_no_instance C02_unknown_time_placeholder C02_unknown_user_placeholder
   C02_unfilled_of_piece C02_unfilled_star C02_unfilled_user C02_handler_only_start
-  C02_handler_only_end C02_handler_only_attrs
+  C02_handler_only_end C02_handler_only_attrs C02_roundtrip_both C02_roundtrip_both_full
